@@ -18,6 +18,7 @@
 package c11
 
 import (
+	"strconv"
 	"bufio"
 	"bytes"
 	"crypto/sha1"
@@ -200,8 +201,11 @@ func (b bodySpec) name() string {
 	if b.Kind >= bBytes && b.Kind <= bStreamLimited {
 		k += fmt.Sprintf("(%d)", b.Size)
 	}
-	if b.Kind >= bStreamKnown && b.Kind <= bStreamLimited && b.Style == 1 {
+	if b.Kind >= bStreamKnown && b.Kind <= bStreamLimited && b.Style%2 == 1 {
 		k += "/dribble"
+	}
+	if b.Kind == bStreamUnknown && b.Style >= 2 {
+		k += "+Set(Content-Length)"
 	}
 	return k
 }
@@ -227,6 +231,7 @@ func bodySpecs(thorough bool) []bodySpec {
 		}
 		out = append(out, bodySpec{bStreamLimited, 4097, st})
 	}
+	out = append(out, bodySpec{bStreamUnknown, 1, 2}, bodySpec{bStreamUnknown, 4097, 3})
 	out = append(out, bodySpec{bForm, 0, 0}, bodySpec{bMultipart, 0, 0}, bodySpec{bMultipartFile, 0, 0}, bodySpec{bMultipartFile, 0, 1}, bodySpec{bMultipartFile, 0, 2})
 	return out
 }
@@ -406,7 +411,11 @@ func build(req *protocol.Request, rc ReqCase) *intent {
 		req.SetBodyStream(reader(in.body, b.Style), b.Size)
 	case bStreamUnknown:
 		in.body = pat(b.Size, 3)
-		req.SetBodyStream(reader(in.body, b.Style), -1)
+		req.SetBodyStream(reader(in.body, b.Style%2), -1)
+		if b.Style >= 2 {
+			// the application then states the length itself through the generic header setter
+			req.Header.Set("Content-Length", strconv.Itoa(b.Size))
+		}
 	case bStreamLimited:
 		in.body = pat(b.Size, 4)
 		more := append(append([]byte(nil), in.body...), "MUST-NOT-BE-SENT"...)
@@ -615,6 +624,10 @@ type Case struct {
 	Side  string    `json:"side"` // "request" | "pair" | "response"
 	Reqs  []ReqCase `json:"reqs,omitempty"`
 	Reuse bool      `json:"reuse,omitempty"` // pair: the second request is built in the same (Reset) Request object
+	// Stale (pairs): the server closes the kept-alive connection after the first exchange; the second request is written
+	// to the dead connection first and - if the client retries it - again to a new connection. Whatever reaches the new
+	// connection must be the complete second request (or Do reports an error).
+	Stale bool `json:"stale,omitempty"`
 	Resp  *RespCase `json:"resp,omitempty"`
 }
 
@@ -643,7 +656,7 @@ func (w *worker) runRequests(cs Case) (vs []violation, outcome string) {
 		vs = append(vs, violation{cs.Side + "|" + kind + "|" + feat, msg})
 	}
 	sc := netsim.NewScriptConn([][]byte{[]byte(respOK)}, netsim.EndEOF)
-	for i := 1; i < len(rcs); i++ {
+	for i := 1; i < len(rcs) && !cs.Stale; i++ {
 		sc.Next = append(sc.Next, [][]byte{[]byte(respOK)})
 	}
 	var spare []*netsim.ScriptConn
@@ -669,13 +682,23 @@ func (w *worker) runRequests(cs Case) (vs []violation, outcome string) {
 		in := build(req, rc)
 		ins = append(ins, in)
 		o := w.cl.Do(req)
+		if cs.Stale && i > 0 && o.Err != "" && o.Panic == "" {
+			return vs, "stale-connection-error" // not retried: the caller is told, nothing wrong reached a server
+		}
 		if o.Err != "" || o.Panic != "" || o.Status != 200 {
 			fail("client-error", fmt.Sprintf("method=%s|body=%s", methodClass(rc.Method), bodyClass(rc.Body)), fmt.Sprintf("request #%d %v: HostClient.Do failed: err=%q panic=%q status=%d; wire=%s", i, rc, o.Err, o.Panic, o.Status, clip(sc.Out)))
 			return vs, "client-error"
 		}
 	}
 	var out []byte
-	for _, s := range conns {
+	for ci, s := range conns {
+		if cs.Stale && ci == 0 {
+			// of the first connection only the first request counts: what the client wrote to it afterwards went to a dead peer
+			if m, err := httpref.ParseRequest(s.Out, 0); err == nil {
+				out = append(out, s.Out[:m.End]...)
+				continue
+			}
+		}
 		out = append(out, s.Out...)
 	}
 
@@ -1422,6 +1445,16 @@ func pairCases(thorough bool) []Case {
 					for _, s := range seconds {
 						for _, reuse := range []bool{false, true} {
 							out = append(out, Case{Side: "pair", Reqs: []ReqCase{first, s}, Reuse: reuse})
+						}
+						if m == "GET" && u == 0 && h == hNone {
+							// the second request again, after the server dropped the idle connection; every method and body kind
+							for _, m2 := range []string{"PUT", "GET", "DELETE", "POST"} {
+								s2 := s
+								s2.Method = m2
+								if validReq(s2) {
+									out = append(out, Case{Side: "pair", Reqs: []ReqCase{first, s2}, Stale: true})
+								}
+							}
 						}
 					}
 				}
